@@ -15,9 +15,13 @@ Qed.
 
 Lemma mem_false_In : forall l xs, mem l xs = false <-> ~ In l xs.
 Proof.
-  intros l xs. rewrite <- mem_In. destruct (mem l xs); split; intros H; try reflexivity; try discriminate.
-  - exfalso. apply H. reflexivity.
-  - intros H'. discriminate.
+  intros l xs. rewrite <- mem_In. destruct (mem l xs); split; intro H; try congruence.
+Qed.
+
+Lemma last_nonempty : forall (p : list label) x d d', last (x :: p) d = last (x :: p) d'.
+Proof.
+  induction p as [|y p IH]; intros x d d'; [reflexivity|].
+  change (last (x :: y :: p) d) with (last (y :: p) d). change (last (x :: y :: p) d') with (last (y :: p) d'). apply IH.
 Qed.
 
 (* number of graph entries whose label is not yet in the set: the termination measure of both DFS *)
@@ -25,7 +29,10 @@ Definition unseen (g : graph) (s : list label) : nat :=
   length (filter (fun kv => negb (mem (fst kv) s)) g).
 
 Lemma unseen_le_length : forall g s, (unseen g s <= length g)%nat.
-Proof. intros g s. unfold unseen. apply filter_length_le. Qed.
+Proof.
+  intros g s. unfold unseen. induction g as [|kv g IH]; cbn [filter length]; [lia|].
+  destruct (negb (mem (fst kv) s)); cbn [length]; lia.
+Qed.
 
 Lemma unseen_incl : forall g s s', incl s s' -> (unseen g s' <= unseen g s)%nat.
 Proof.
@@ -142,7 +149,7 @@ Section SomePath.
       + injection H as <- <-. destruct Hq as [Hx [Hch Hhit]]. subst x.
         split; [exact Hi1|]. split; [reflexivity|]. split.
         * cbn [chain]. split; [|exact Hch]. exists i1. split; [exact Hf|]. apply Hsub. left. reflexivity.
-        * cbn [last] in *. exact Hhit.
+        * change (last (t1 :: l :: q) t1) with (last (l :: q) t1). rewrite (last_nonempty q l t1 l). exact Hhit.
   Qed.
 
   Lemma somePath_ok : forall fuel t1 seen r, somePath fuel g ex t2 t1 seen = Some r -> sp_ok t1 seen r.
@@ -230,11 +237,11 @@ Section SomePath.
     eapply dead_not_hit; [exact Hall'| |exact Hh]. eapply dead_closed_reach; eauto.
   Qed.
 
-  Lemma chain_reach : forall p x, chain E (x :: p) -> reach E x (last p x).
+  Lemma chain_reach : forall p x d, chain E (x :: p) -> reach E x (last (x :: p) d).
   Proof.
-    induction p as [|y p IH]; intros x Hc; cbn [last]; [apply reach_refl|].
-    cbn [chain] in Hc. destruct Hc as [Hxy Hc]. eapply reach_step; [exact Hxy|].
-    specialize (IH y Hc). destruct p; cbn [last] in *; exact IH.
+    induction p as [|y p IH]; intros x d Hc; [apply reach_refl|].
+    change (last (x :: y :: p) d) with (last (y :: p) d).
+    cbn [chain] in Hc. destruct Hc as [Hxy Hc]. eapply reach_step; [exact Hxy|]. apply IH. exact Hc.
   Qed.
 
   (* soundness of one direction *)
@@ -245,6 +252,754 @@ Section SomePath.
     intros fuel t1 seen x p seen' H. pose proof (somePath_ok _ _ _ _ H) as Hok. cbn [sp_ok] in Hok.
     destruct Hok as [_ [Hx [Hc Hh]]]. subst x. repeat split; try assumption.
     exists (last (t1 :: p) t1). split; [|exact Hh].
-    pose proof (chain_reach p t1 Hc) as Hr. destruct p; cbn [last] in *; exact Hr.
+    apply chain_reach. exact Hc.
   Qed.
 End SomePath.
+
+(* ---- both directions, the memo, and the loops over the from/to lists ---- *)
+
+Lemma memo_get_set : forall m k v k', memo_get (memo_set m k v) k' = if N.eqb k' k then v else memo_get m k'.
+Proof.
+  induction m as [|[k0 w] m IH]; intros k v k'; cbn [memo_set memo_get].
+  - reflexivity.
+  - destruct (N.eqb k k0) eqn:E; cbn [memo_get].
+    + apply N.eqb_eq in E. subst k0. destruct (N.eqb k' k); reflexivity.
+    + destruct (N.eqb k' k0) eqn:E'.
+      * apply N.eqb_eq in E'. subst k0. rewrite N.eqb_sym, E. reflexivity.
+      * apply IH.
+Qed.
+
+(* every memo entry is a set of closed non-hits for its key *)
+Definition memo_ok (g : graph) (ex : list label) (m : list (label * list label)) : Prop :=
+  forall k, all_closed g ex k (memo_get m k).
+
+Lemma memo_ok_nil : forall g ex, memo_ok g ex [].
+Proof. intros g ex k u []. Qed.
+
+Lemma memo_ok_set : forall g ex m k v, memo_ok g ex m -> all_closed g ex k v -> memo_ok g ex (memo_set m k v).
+Proof.
+  intros g ex m k v Hm Hv k'. rewrite memo_get_set. destruct (N.eqb k' k) eqn:E.
+  - apply N.eqb_eq in E. subst. exact Hv.
+  - apply Hm.
+Qed.
+
+(* p is a dependency chain from a into b (b itself or one of b's sub-targets) *)
+Definition joins (g : graph) (ex : list label) (a b : label) (p : list label) : Prop :=
+  exists x r, p = x :: r /\ x = a /\ chain (edge g ex) p /\ hit g b (last p a).
+
+Definition sp_result (g : graph) (ex : list label) (a b : label) (p : list label) : Prop :=
+  (joins g ex a b p \/ joins g ex b a p) /\ (connects g ex a b \/ connects g ex b a).
+
+Lemma fuel_enough : forall g s, (unseen g s < fuel_of g)%nat.
+Proof. intros g s. unfold fuel_of. pose proof (unseen_le_length g s). lia. Qed.
+
+Lemma pair_spec :
+  forall g ex m a b, in_graph g a -> in_graph g b -> memo_ok g ex m ->
+    exists p m', some_path_pair g ex m a b = Some (p, m') /\
+      match p with
+      | [] => memo_ok g ex m' /\ ~ connects g ex a b /\ ~ connects g ex b a
+      | _ :: _ => sp_result g ex a b p
+      end.
+Proof.
+  intros g ex m a b Ha Hb Hm. unfold some_path_pair.
+  destruct (somePath (fuel_of g) g ex b a (memo_get m b)) as [[p s1]|] eqn:E1.
+  2:{ exfalso. eapply somePath_total; [apply fuel_enough | exact E1]. }
+  destruct p as [|x p].
+  - destruct (somePath_none g ex b Hb _ _ _ _ (Hm b) E1) as [Hc1 Hn1].
+    set (m1 := memo_set m b s1). assert (Hm1 : memo_ok g ex m1) by (apply memo_ok_set; assumption).
+    destruct (somePath (fuel_of g) g ex a b (memo_get m1 a)) as [[p2 s2]|] eqn:E2.
+    2:{ exfalso. eapply somePath_total; [apply fuel_enough | exact E2]. }
+    exists p2, (memo_set m1 a s2). split; [reflexivity|].
+    destruct p2 as [|y p2].
+    + destruct (somePath_none g ex a Ha _ _ _ _ (Hm1 a) E2) as [Hc2 Hn2].
+      split; [apply memo_ok_set; assumption|]. split; assumption.
+    + destruct (somePath_some g ex a _ _ _ _ _ _ E2) as [Hy [Hch [Hh Hcon]]]. subst y.
+      split; [right|right; exact Hcon]. exists b, p2. repeat split; assumption.
+  - exists (x :: p), (memo_set m b s1). split; [reflexivity|].
+    destruct (somePath_some g ex b _ _ _ _ _ _ E1) as [Hy [Hch [Hh Hcon]]]. subst x.
+    split; [left|left; exact Hcon]. exists a, p. repeat split; assumption.
+Qed.
+
+Definition none_connected (g : graph) (ex : list label) (a : label) (tos : list label) : Prop :=
+  forall b, In b tos -> ~ connects g ex a b /\ ~ connects g ex b a.
+
+Lemma sp_to_spec :
+  forall g ex a tos, in_graph g a -> Forall (in_graph g) tos ->
+    forall m, memo_ok g ex m ->
+      exists p m', sp_to g ex m a tos = Some (p, m') /\
+        match p with
+        | [] => memo_ok g ex m' /\ none_connected g ex a tos
+        | _ :: _ => exists b, In b tos /\ sp_result g ex a b p
+        end.
+Proof.
+  intros g ex a tos Ha Htos. induction Htos as [|b tos Hb Htos IH]; intros m Hm; cbn [sp_to].
+  - exists [], m. split; [reflexivity|]. split; [exact Hm|]. intros b [].
+  - destruct (pair_spec g ex m a b Ha Hb Hm) as [p [m' [Hp Hres]]]. rewrite Hp.
+    destruct p as [|x p].
+    + destruct Hres as [Hm' [Hn1 Hn2]]. destruct (IH m' Hm') as [p2 [m2 [Hp2 Hres2]]].
+      exists p2, m2. split; [exact Hp2|]. destruct p2 as [|y p2].
+      * destruct Hres2 as [Hm2 Hnc]. split; [exact Hm2|]. intros z [Hz|Hz]; [subst z; split; assumption | apply Hnc; exact Hz].
+      * destruct Hres2 as [z [Hz Hr]]. exists z. split; [right; exact Hz | exact Hr].
+    + exists (x :: p), m'. split; [reflexivity|]. exists b. split; [left; reflexivity | exact Hres].
+Qed.
+
+Lemma sp_from_spec :
+  forall g ex tos froms, Forall (in_graph g) tos -> Forall (in_graph g) froms ->
+    forall m, memo_ok g ex m ->
+      exists p, sp_from g ex m froms tos = Some p /\
+        match p with
+        | [] => forall a, In a froms -> none_connected g ex a tos
+        | _ :: _ => exists a b, In a froms /\ In b tos /\ sp_result g ex a b p
+        end.
+Proof.
+  intros g ex tos froms Htos Hfroms. induction Hfroms as [|a froms Ha Hfroms IH]; intros m Hm; cbn [sp_from].
+  - exists []. split; [reflexivity|]. intros a [].
+  - destruct (sp_to_spec g ex a tos Ha Htos m Hm) as [p [m' [Hp Hres]]]. rewrite Hp.
+    destruct p as [|x p].
+    + destruct Hres as [Hm' Hnc]. destruct (IH m' Hm') as [p2 [Hp2 Hres2]].
+      exists p2. split; [exact Hp2|]. destruct p2 as [|y p2].
+      * intros z [Hz|Hz]; [subst z; exact Hnc | apply Hres2; exact Hz].
+      * destruct Hres2 as [a' [b [Ha' Hr]]]. exists a', b. split; [right; exact Ha' | exact Hr].
+    + exists (x :: p). split; [reflexivity|]. destruct Hres as [b [Hb Hr]]. exists a, b. split; [left; reflexivity|]. split; assumption.
+Qed.
+
+(* the exact specification of `plz query somepath` (raw path, i.e. with --hidden) *)
+Definition some_connected (g : graph) (ex froms tos : list label) : Prop :=
+  exists a b, In a froms /\ In b tos /\ (connects g ex a b \/ connects g ex b a).
+
+Theorem somepath_exact_proof :
+  forall g ex froms tos, Forall (in_graph g) froms -> Forall (in_graph g) tos ->
+    exists p, some_path_raw g ex froms tos = Some p /\
+      (p <> [] <-> some_connected g ex froms tos) /\
+      (p <> [] -> exists a b, In a froms /\ In b tos /\ (joins g ex a b p \/ joins g ex b a p)).
+Proof.
+  intros g ex froms tos Hf Ht. unfold some_path_raw.
+  destruct (sp_from_spec g ex tos froms Ht Hf [] (memo_ok_nil g ex)) as [p [Hp Hres]].
+  exists p. split; [exact Hp|]. destruct p as [|x p].
+  - split; [|intros H; exfalso; apply H; reflexivity].
+    split; [intros H; exfalso; apply H; reflexivity|].
+    intros [a [b [Ha [Hb Hc]]]]. exfalso. destruct (Hres a Ha b Hb) as [H1 H2]. destruct Hc; auto.
+  - destruct Hres as [a [b [Ha [Hb [Hj Hc]]]]]. split.
+    + split; [intros _; exists a, b; auto | intros _; discriminate].
+    + intros _. exists a, b. auto.
+Qed.
+
+(* without --hidden the path is printed rule by rule: consecutive printed labels are different rules
+   one of whose targets depends on a target of the next *)
+Definition redge (g : graph) (ex : list label) (r1 r2 : label) : Prop :=
+  r1 <> r2 /\ exists u v, parent_of g u = r1 /\ parent_of g v = r2 /\ edge g ex u v.
+
+Lemma compact_head : forall x r, exists r', compact (x :: r) = x :: r'.
+Proof.
+  intros x r. revert x. induction r as [|y r IH]; intros x.
+  - exists []. reflexivity.
+  - cbn [compact]. destruct (N.eqb x y) eqn:E.
+    + apply N.eqb_eq in E. subst y. apply IH.
+    + eexists. reflexivity.
+Qed.
+
+Lemma compact_cons2 : forall x y r, compact (x :: y :: r) = if N.eqb x y then compact (y :: r) else x :: compact (y :: r).
+Proof. reflexivity. Qed.
+
+Lemma shown_chain : forall g ex p, chain (edge g ex) p -> chain (redge g ex) (compact (map (parent_of g) p)).
+Proof.
+  intros g ex. induction p as [|x p IH]; intros Hc; [exact I|].
+  destruct p as [|y p]; [exact I|].
+  cbn [chain] in Hc. destruct Hc as [Hxy Hc]. specialize (IH Hc).
+  cbn [map] in *. rewrite compact_cons2.
+  destruct (N.eqb (parent_of g x) (parent_of g y)) eqn:E; [exact IH|].
+  destruct (compact_head (parent_of g y) (map (parent_of g) p)) as [r' Hr']. rewrite Hr' in *.
+  cbn [chain]. split; [|exact IH]. split; [apply N.eqb_neq; exact E|]. exists x, y. auto.
+Qed.
+
+(* ------------------------------------------------------------------------------------------- *)
+(* deps *)
+
+Lemma wpath_snoc : forall g hid u v w c, wpath g hid u v c -> edge g [] v w -> wpath g hid u w (c + ecost g hid v w)%Z.
+Proof.
+  intros g hid u v w c H. induction H as [u v Huv|u v x c Huv Hvx IH]; intros Hw.
+  - apply wp_cons; [exact Huv|]. apply wp_one. exact Hw.
+  - rewrite <- Z.add_assoc. apply wp_cons; [exact Huv|]. apply IH. exact Hw.
+Qed.
+
+Lemma ecost_nonneg : forall g hid u v, (0 <= ecost g hid u v <= 1)%Z.
+Proof.
+  intros g hid u v. unfold ecost. destruct hid; [lia|].
+  destruct (find g u); [|lia]. destruct (find g v); [|lia].
+  destruct (has_parent v t0 && N.eqb (t_parent t0) (t_parent t)); lia.
+Qed.
+
+Section Deps.
+  Variable g : graph.
+  Variable hid : bool.
+  Variable lim : Z.
+
+  (* the label sets only grow *)
+  Lemma deps_loop_mono :
+    forall (rec : label -> Z -> dstate -> option dstate) it cur,
+      (forall l c st st', rec l c st = Some st' -> incl (fst st) (fst st')) ->
+      forall ls st st', deps_loop rec g hid it cur ls st = Some st' -> incl (fst st) (fst st').
+  Proof.
+    intros rec it cur Hrec. induction ls as [|l ls IH]; intros st st' H; cbn [deps_loop] in H.
+    - injection H as <-. apply incl_refl.
+    - destruct (mem l (fst st)); [apply IH; exact H|].
+      destruct (find g l) as [il|].
+      + match type of H with match ?r with _ => _ end = _ => destruct r as [st1|] eqn:Er; [|discriminate] end.
+        apply IH in H. eapply incl_tran; [|exact H].
+        destruct (hid || negb (has_parent l il)); [|destruct (N.eqb (t_parent il) (t_parent it))];
+          apply Hrec in Er; cbn [fst] in Er; intros z Hz; apply Er; right; exact Hz.
+      + apply IH in H. cbn [fst] in H. intros z Hz. apply H. right. exact Hz.
+  Qed.
+
+  Lemma deps_mono : forall fuel t cur st st', deps fuel g hid lim t cur st = Some st' -> incl (fst st) (fst st').
+  Proof.
+    induction fuel as [|f IH]; intros t cur st st' H; cbn [deps] in H; [discriminate|].
+    destruct (Z.eqb cur lim); [injection H as <-; apply incl_refl|].
+    destruct (find g t) as [it|]; [|injection H as <-; apply incl_refl].
+    eapply deps_loop_mono; [|exact H]. intros l c s s' Hr. eapply IH. exact Hr.
+  Qed.
+
+  (* fuel *)
+  Lemma deps_loop_total :
+    forall (rec : label -> Z -> dstate -> option dstate) f it cur,
+      (forall l c st, (unseen g (fst st) < f)%nat -> rec l c st <> None) ->
+      (forall l c st st', rec l c st = Some st' -> incl (fst st) (fst st')) ->
+      forall ls st, (unseen g (fst st) < S f)%nat -> deps_loop rec g hid it cur ls st <> None.
+  Proof.
+    intros rec f it cur Htot Hmono. induction ls as [|l ls IH]; intros st Hu; cbn [deps_loop]; [discriminate|].
+    destruct (mem l (fst st)) eqn:Em; [apply IH; exact Hu|].
+    apply mem_false_In in Em.
+    destruct (find g l) as [il|] eqn:Hf.
+    - pose proof (unseen_add g (fst st) l il Hf Em) as Hlt.
+      match goal with |- match ?r with _ => _ end <> None => destruct r as [st1|] eqn:Er end.
+      + apply IH.
+        assert (Hi : incl (l :: fst st) (fst st1)).
+        { destruct (hid || negb (has_parent l il)); [|destruct (N.eqb (t_parent il) (t_parent it))];
+            apply Hmono in Er; exact Er. }
+        pose proof (unseen_incl g _ _ Hi). lia.
+      + exfalso.
+        destruct (hid || negb (has_parent l il)); [|destruct (N.eqb (t_parent il) (t_parent it))];
+          (eapply Htot; [|exact Er]); cbn [fst]; lia.
+    - apply IH. cbn [fst]. pose proof (unseen_incl g (fst st) (l :: fst st) (fun x Hx => or_intror Hx)). lia.
+  Qed.
+
+  Lemma deps_total : forall fuel t cur st, (unseen g (fst st) < fuel)%nat -> deps fuel g hid lim t cur st <> None.
+  Proof.
+    induction fuel as [|f IH]; intros t cur st Hu; [lia|]. cbn [deps].
+    destruct (Z.eqb cur lim); [discriminate|]. destruct (find g t) as [it|]; [|discriminate].
+    apply (deps_loop_total (deps f g hid lim) f it cur).
+    - intros l c s Hs. apply IH. exact Hs.
+    - intros l c s s' Hr. eapply deps_mono. exact Hr.
+    - exact Hu.
+  Qed.
+
+  (* ---- soundness: whatever is printed is visible and lies on a path of the printed cost, within the limit ---- *)
+  Variable root : label.
+  Hypothesis lim_ok : (-1 <= lim)%Z.
+
+  (* t was reached from the root by a path of cost c (the root itself at cost 0) *)
+  Definition at_cost (t : label) (c : Z) : Prop := (t = root /\ c = 0%Z) \/ wpath g hid root t c.
+
+  Definition printed_ok (roots : list label) (out : list (Z * label)) : Prop :=
+    forall lv l, In (lv, l) out ->
+      visible g hid l /\ exists r, In r roots /\ wpath g hid r l (lv + 1)%Z /\ (lim = (-1)%Z \/ (lv + 1 <= lim)%Z).
+
+  Variable roots : list label.
+  Hypothesis root_in : In root roots.
+
+  Definition call_ok (t : label) (cur : Z) : Prop :=
+    at_cost t cur /\ (0 <= cur)%Z /\ (lim = (-1)%Z \/ (cur <= lim)%Z).
+
+  Lemma at_cost_step : forall t it cur l, find g t = Some it -> In l (succs g [] it) -> at_cost t cur ->
+    wpath g hid root l (cur + ecost g hid t l)%Z.
+  Proof.
+    intros t it cur l Hf Hl [[Ht Hc]|Hw].
+    - subst. rewrite Z.add_0_l. apply wp_one. exists it. auto.
+    - apply wpath_snoc; [exact Hw|]. exists it. auto.
+  Qed.
+
+  Lemma deps_loop_sound :
+    forall (rec : label -> Z -> dstate -> option dstate) t it cur,
+      find g t = Some it -> call_ok t cur -> Z.eqb cur lim = false ->
+      (forall l c st st', rec l c st = Some st' -> call_ok l c -> printed_ok roots (snd st) -> printed_ok roots (snd st')) ->
+      forall ls st st', incl ls (succs g [] it) -> deps_loop rec g hid it cur ls st = Some st' ->
+        printed_ok roots (snd st) -> printed_ok roots (snd st').
+  Proof.
+    intros rec t it cur Hf [Hat [H0 Hlim]] Hne Hrec. apply Z.eqb_neq in Hne.
+    induction ls as [|l ls IH]; intros st st' Hsub H Hp; cbn [deps_loop] in H.
+    - injection H as <-. exact Hp.
+    - assert (Hsub' : incl ls (succs g [] it)) by (intros z Hz; apply Hsub; right; exact Hz).
+      destruct (mem l (fst st)); [eapply IH; eauto|].
+      destruct (find g l) as [il|] eqn:Hfl; [|eapply IH; eauto].
+      match type of H with match ?r with _ => _ end = _ => destruct r as [st1|] eqn:Er; [|discriminate] end.
+      eapply IH; [exact Hsub'|exact H|].
+      pose proof (at_cost_step t it cur l Hf (Hsub l (or_introl eq_refl)) Hat) as Hw.
+      assert (Hcost : ecost g hid t l = if hid || negb (has_parent l il) then 1%Z
+                                        else if N.eqb (t_parent il) (t_parent it) then 0%Z else 1%Z).
+      { unfold ecost. destruct hid; [reflexivity|]. rewrite Hf, Hfl. cbn [orb].
+        destruct (has_parent l il); cbn [negb andb]; reflexivity. }
+      destruct (hid || negb (has_parent l il)) eqn:Ev.
+      + apply Hrec in Er; [exact Er| |].
+        * rewrite Hcost in Hw. split; [right; exact Hw|]. split; lia.
+        * cbn [snd]. intros lv x Hin. apply in_app_or in Hin. destruct Hin as [Hin|[Hin|[]]]; [apply Hp; exact Hin|].
+          injection Hin as <- <-. split.
+          -- exists il. split; [exact Hfl|]. apply orb_true_iff in Ev. destruct Ev as [Ev|Ev]; [left; exact Ev|].
+             right. apply negb_true_iff in Ev. exact Ev.
+          -- exists root. rewrite Hcost in Hw. split; [exact root_in|]. split; [exact Hw|]. lia.
+      + destruct (N.eqb (t_parent il) (t_parent it)) eqn:Ep.
+        * apply Hrec in Er; [exact Er| |exact Hp].
+          rewrite Hcost, Z.add_0_r in Hw. split; [right; exact Hw|]. split; lia.
+        * apply Hrec in Er; [exact Er| |exact Hp].
+          rewrite Hcost in Hw. split; [right; exact Hw|]. split; lia.
+  Qed.
+
+  Lemma deps_sound : forall fuel t cur st st', deps fuel g hid lim t cur st = Some st' ->
+    call_ok t cur -> printed_ok roots (snd st) -> printed_ok roots (snd st').
+  Proof.
+    induction fuel as [|f IH]; intros t cur st st' H Hc Hp; cbn [deps] in H; [discriminate|].
+    destruct (Z.eqb cur lim) eqn:El; [injection H as <-; exact Hp|].
+    destruct (find g t) as [it|] eqn:Hf; [|injection H as <-; exact Hp].
+    eapply (deps_loop_sound (deps f g hid lim) t it cur Hf Hc El); [|apply incl_refl|exact H|exact Hp].
+    intros l c s s' Hr Hcl Hps. eapply IH; eauto.
+  Qed.
+End Deps.
+
+Lemma deps_roots_sound :
+  forall g hid lim all_roots, (-1 <= lim)%Z ->
+    forall roots st st', incl roots all_roots -> deps_roots g hid lim roots st = Some st' ->
+      printed_ok g hid lim all_roots (snd st) -> printed_ok g hid lim all_roots (snd st').
+Proof.
+  intros g hid lim all_roots Hl. induction roots as [|r roots IH]; intros st st' Hi H Hp; cbn [deps_roots] in H.
+  - injection H as <-. exact Hp.
+  - destruct (deps (fuel_of g) g hid lim r 0 st) as [st1|] eqn:E1; [|discriminate].
+    eapply IH; [intros z Hz; apply Hi; right; exact Hz|exact H|].
+    eapply (deps_sound g hid lim r Hl all_roots (Hi r (or_introl eq_refl))); [exact E1| |exact Hp].
+    split; [left; split; reflexivity|]. split; lia.
+Qed.
+
+Lemma deps_roots_total : forall g hid lim roots st, deps_roots g hid lim roots st <> None.
+Proof.
+  intros g hid lim. induction roots as [|r roots IH]; intros st; cbn [deps_roots]; [discriminate|].
+  destruct (deps (fuel_of g) g hid lim r 0 st) as [st1|] eqn:E1; [apply IH|].
+  exfalso. eapply deps_total; [apply fuel_enough|exact E1].
+Qed.
+
+(* deps, part 1: never out of fuel; everything printed is within the limit *)
+Theorem deps_sound_proof :
+  forall g roots hid lim, (-1 <= lim)%Z ->
+    exists out, deps_query g roots hid lim = Some out /\
+      forall t, In t (map snd out) -> dwithin g hid roots lim t.
+Proof.
+  intros g roots hid lim Hl. unfold deps_query.
+  destruct (deps_roots g hid lim roots ([], [])) as [st|] eqn:E; [|exfalso; eapply deps_roots_total; exact E].
+  exists (snd st). split; [reflexivity|]. intros t Ht. apply in_map_iff in Ht. destruct Ht as [[lv l] [Hs Hin]].
+  cbn [snd] in Hs. subst l.
+  pose proof (deps_roots_sound g hid lim roots Hl roots _ _ (incl_refl _) E) as Hp. cbn [snd] in Hp.
+  destruct (Hp (fun _ _ F => match F with end) lv t Hin) as [Hv [r [Hr [Hw Hlim]]]].
+  split; [exact Hv|]. exists r, (lv + 1)%Z. auto.
+Qed.
+
+(* ---- completeness of deps without a level limit (lim = -1) ---- *)
+Section DepsComplete.
+  Variable g : graph.
+  Variable hid : bool.
+
+  Definition closedD (u : label) (d : list label) : Prop := forall v, edge g [] u v -> In v d.
+  Definition printedV (u : label) (out : list (Z * label)) : Prop := visible g hid u -> In u (map snd out).
+
+  Definition dc_ok (st st' : dstate) : Prop :=
+    incl (fst st) (fst st') /\ incl (snd st) (snd st') /\
+    forall u, In u (fst st') -> In u (fst st) \/ (closedD u (fst st') /\ printedV u (snd st')).
+
+  Lemma closedD_mono : forall u d d', incl d d' -> closedD u d -> closedD u d'.
+  Proof. intros u d d' Hi Hc v Hv. apply Hi. apply Hc. exact Hv. Qed.
+
+  Lemma printedV_mono : forall u o o', incl o o' -> printedV u o -> printedV u o'.
+  Proof.
+    intros u o o' Hi Hp Hv. specialize (Hp Hv). apply in_map_iff in Hp. destruct Hp as [x [Hx Hin]].
+    apply in_map_iff. exists x. split; [exact Hx | apply Hi; exact Hin].
+  Qed.
+
+  Lemma dc_refl : forall st, dc_ok st st.
+  Proof. intros st. split; [apply incl_refl|]. split; [apply incl_refl|]. intros u Hu. left. exact Hu. Qed.
+
+  Lemma dc_trans : forall a b c, dc_ok a b -> dc_ok b c -> dc_ok a c.
+  Proof.
+    intros a b c [H1 [H2 H3]] [K1 [K2 K3]]. split; [eapply incl_tran; eauto|]. split; [eapply incl_tran; eauto|].
+    intros u Hu. destruct (K3 u Hu) as [Hb|Hg]; [|right; exact Hg].
+    destruct (H3 u Hb) as [Ha|[Hc Hp]]; [left; exact Ha|]. right. split.
+    - eapply closedD_mono; eauto.
+    - eapply printedV_mono; eauto.
+  Qed.
+
+  Lemma deps_loop_complete :
+    forall (rec : label -> Z -> dstate -> option dstate) it cur,
+      (0 <= cur)%Z ->
+      (forall l c st st', (0 <= c)%Z -> rec l c st = Some st' -> dc_ok st st' /\ closedD l (fst st')) ->
+      forall ls st st', deps_loop rec g hid it cur ls st = Some st' ->
+        dc_ok st st' /\ forall l, In l ls -> In l (fst st').
+  Proof.
+    intros rec it cur H0 Hrec. induction ls as [|l ls IH]; intros st st' H; cbn [deps_loop] in H.
+    - injection H as <-. split; [apply dc_refl|]. intros l [].
+    - destruct (mem l (fst st)) eqn:Em.
+      { destruct (IH _ _ H) as [Hd Hall]. split; [exact Hd|]. intros z [Hz|Hz]; [|apply Hall; exact Hz].
+        subst z. apply Hd. apply mem_In. exact Em. }
+      destruct (find g l) as [il|] eqn:Hfl.
+      2:{ destruct (IH _ _ H) as [Hd Hall]. cbn [fst snd] in *. split.
+          - eapply dc_trans; [|exact Hd]. split; [intros z Hz; right; exact Hz|]. split; [apply incl_refl|].
+            cbn [fst snd]. intros u [Hu|Hu]; [|left; exact Hu]. subst u. right. split.
+            + intros v [iu [Hf _]]. congruence.
+            + intros [iv [Hf _]]. congruence.
+          - intros z [Hz|Hz]; [|apply Hall; exact Hz]. subst z. apply Hd. left. reflexivity. }
+      match type of H with match ?r with _ => _ end = _ => destruct r as [st1|] eqn:Er; [|discriminate] end.
+      destruct (IH _ _ H) as [Hd Hall].
+      assert (Hstep : dc_ok st st1 /\ In l (fst st1)).
+      { destruct (hid || negb (has_parent l il)) eqn:Ev.
+        - apply Hrec in Er; [|lia]. destruct Er as [[R1 [R2 R3]] Rc]. cbn [fst snd] in *. split.
+          + split; [intros z Hz; apply R1; right; exact Hz|]. split; [intros z Hz; apply R2; apply in_or_app; left; exact Hz|].
+            intros u Hu. destruct (R3 u Hu) as [[Hu1|Hu1]|Hu1]; [|left; exact Hu1|right; exact Hu1].
+            subst u. right. split; [exact Rc|]. intros _. apply in_map_iff. exists (cur, l). split; [reflexivity|].
+            apply R2. apply in_or_app. right. left. reflexivity.
+          + apply R1. left. reflexivity.
+        - assert (Hnv : ~ visible g hid l).
+          { intros [iv [Hf Hv]]. rewrite Hfl in Hf. injection Hf as <-. apply orb_false_iff in Ev. destruct Ev as [Eh Ep].
+            apply negb_false_iff in Ep. destruct Hv; congruence. }
+          assert (Hgen : forall c, (0 <= c)%Z -> rec l c (l :: fst st, snd st) = Some st1 -> dc_ok st st1 /\ In l (fst st1)).
+          { intros c Hc0 Hr. apply Hrec in Hr; [|exact Hc0]. destruct Hr as [[R1 [R2 R3]] Rc]. cbn [fst snd] in *. split.
+            - split; [intros z Hz; apply R1; right; exact Hz|]. split; [exact R2|].
+              intros u Hu. destruct (R3 u Hu) as [[Hu1|Hu1]|Hu1]; [|left; exact Hu1|right; exact Hu1].
+              subst u. right. split; [exact Rc|]. intros Hv. contradiction.
+            - apply R1. left. reflexivity. }
+          destruct (N.eqb (t_parent il) (t_parent it)); eapply Hgen; try exact Er; lia. }
+      destruct Hstep as [Hs Hl]. split; [eapply dc_trans; eauto|].
+      intros z [Hz|Hz]; [|apply Hall; exact Hz]. subst z. apply Hd. exact Hl.
+  Qed.
+
+  Lemma deps_complete : forall fuel t cur st st', (0 <= cur)%Z -> deps fuel g hid (-1) t cur st = Some st' ->
+    dc_ok st st' /\ closedD t (fst st').
+  Proof.
+    induction fuel as [|f IH]; intros t cur st st' H0 H; cbn [deps] in H; [discriminate|].
+    destruct (Z.eqb cur (-1)) eqn:El; [apply Z.eqb_eq in El; lia|].
+    destruct (find g t) as [it|] eqn:Hf.
+    - destruct (deps_loop_complete (deps f g hid (-1)) it cur H0 (fun l c s s' Hc Hr => IH l c s s' Hc Hr) _ _ _ H) as [Hd Hall].
+      split; [exact Hd|]. intros v [iu [Hfu Hv]]. rewrite Hf in Hfu. injection Hfu as <-. apply Hall. exact Hv.
+    - injection H as <-. split; [apply dc_refl|]. intros v [iu [Hfu _]]. congruence.
+  Qed.
+
+  Lemma deps_roots_complete : forall roots st st', deps_roots g hid (-1) roots st = Some st' ->
+    dc_ok st st' /\ forall r, In r roots -> closedD r (fst st').
+  Proof.
+    induction roots as [|r roots IH]; intros st st' H; cbn [deps_roots] in H.
+    - injection H as <-. split; [apply dc_refl|]. intros r [].
+    - destruct (deps (fuel_of g) g hid (-1) r 0 st) as [st1|] eqn:E1; [|discriminate].
+      destruct (deps_complete _ _ _ _ _ (Z.le_refl 0) E1) as [Hd1 Hc1]. destruct (IH _ _ H) as [Hd2 Hall].
+      split; [eapply dc_trans; eauto|]. intros z [Hz|Hz]; [|apply Hall; exact Hz]. subst z.
+      eapply closedD_mono; [|exact Hc1]. apply Hd2.
+  Qed.
+
+  Lemma closed_wpath : forall d, (forall x, In x d -> closedD x d) ->
+    forall u w c, wpath g hid u w c -> closedD u d -> In w d.
+  Proof.
+    intros d Hall u w c Hw. induction Hw as [u v Huv|u v w c Huv Hvw IH]; intros Hc.
+    - apply Hc. exact Huv.
+    - apply IH. apply Hall. apply Hc. exact Huv.
+  Qed.
+End DepsComplete.
+
+(* deps, part 2: without a level limit every visible target on a dependency path is printed *)
+Theorem deps_complete_proof :
+  forall g roots hid, exists out, deps_query g roots hid (-1) = Some out /\
+    forall t, dwithin g hid roots (-1) t -> In t (map snd out).
+Proof.
+  intros g roots hid. unfold deps_query.
+  destruct (deps_roots g hid (-1) roots ([], [])) as [st|] eqn:E; [|exfalso; eapply deps_roots_total; exact E].
+  exists (snd st). split; [reflexivity|]. intros t [Hv [r [c [Hr [Hw _]]]]].
+  destruct (deps_roots_complete g hid roots _ _ E) as [[_ [_ H3]] Hroots]. cbn [fst snd] in H3.
+  assert (Hall : forall x, In x (fst st) -> closedD g x (fst st) /\ printedV g hid x (snd st)).
+  { intros x Hx. destruct (H3 x Hx) as [[]|Hg]. exact Hg. }
+  assert (Ht : In t (fst st)).
+  { eapply closed_wpath; [intros x Hx; apply Hall; exact Hx | exact Hw | apply Hroots; exact Hr]. }
+  apply (Hall t Ht). exact Hv.
+Qed.
+
+(* ------------------------------------------------------------------------------------------- *)
+(* revdeps *)
+
+Lemma In_find : forall g k v, NoDup (map fst g) -> In (k, v) g -> find g k = Some v.
+Proof.
+  induction g as [|[k0 v0] g IH]; intros k v Hnd Hin; [destruct Hin|].
+  cbn [map fst] in Hnd. inversion Hnd as [|? ? Hnot Hnd']; subst. cbn [find].
+  destruct Hin as [Hin|Hin].
+  - injection Hin as <- <-. rewrite N.eqb_refl. reflexivity.
+  - destruct (N.eqb k k0) eqn:E; [|apply IH; assumption].
+    apply N.eqb_eq in E. subst k0. exfalso. apply Hnot. apply in_map_iff. exists (k, v). auto.
+Qed.
+
+Lemma In_find_some : forall g k v, In (k, v) g -> find g k <> None.
+Proof.
+  induction g as [|[k0 v0] g IH]; intros k v Hin; [destruct Hin|]. cbn [find].
+  destruct (N.eqb k k0) eqn:E; [discriminate|]. destruct Hin as [Hin|Hin]; [|eapply IH; exact Hin].
+  injection Hin as <- <-. rewrite N.eqb_refl in E. discriminate.
+Qed.
+
+Lemma rev_of_In : forall g p t, In t (rev_of g p) -> exists it, In (t, it) g /\ In p (succs g [] it).
+Proof.
+  intros g p t H. unfold rev_of in H. apply in_flat_map in H. destruct H as [[k v] [Hkv Hin]].
+  cbn [fst snd] in Hin. apply in_map_iff in Hin. destruct Hin as [x [Hx Hf]]. subst k.
+  apply filter_In in Hf. destruct Hf as [Hs He]. apply N.eqb_eq in He. subst x. exists v. auto.
+Qed.
+
+Lemma In_add : forall x y s, In x (add y s) -> x = y \/ In x s.
+Proof.
+  intros x y s H. unfold add in H. destruct (mem y s); [right; exact H|].
+  apply in_app_or in H. destruct H as [H|[H|[]]]; [right; exact H | left; symmetry; exact H].
+Qed.
+
+Section Revdeps.
+  Variable g : graph.
+  Variable hid : bool.
+  Variable maxd : Z.
+  Variable roots : list label.
+  Hypothesis g_nodup : NoDup (map fst g).
+
+  Definition q_ok (t : label) (d : Z) : Prop := exists s, rstart g hid roots s /\ rpath g hid s t d.
+
+  Definition rinv (st : rstate) : Prop :=
+    (forall t d, In (t, d) (r_q st) -> q_ok t d) /\ (forall x, In x (r_ret st) -> rwithin g hid roots maxd x).
+
+  Lemma push_inv : forall t d st, q_ok t d -> rinv st -> rinv (push (t, d) st).
+  Proof.
+    intros t d st Hq [Hi1 Hi2]. unfold push. cbn [fst]. destruct (mem t (r_done st)); [split; assumption|].
+    split; cbn [r_q r_ret]; [|exact Hi2]. intros t' d' Hin. apply in_app_or in Hin.
+    destruct Hin as [Hin|[Hin|[]]]; [apply Hi1; exact Hin|]. injection Hin as <- <-. exact Hq.
+  Qed.
+
+  Lemma rev_step_inv : forall nt nd st t, q_ok nt nd -> In t (rev_of g nt) -> rinv st -> rinv (rev_step g hid maxd nt nd st t).
+  Proof.
+    intros nt nd st t [s [Hs Hp]] Ht Hinv. unfold rev_step.
+    destruct (Z.ltb nd maxd || Z.eqb maxd (-1)) eqn:Elim; [|exact Hinv].
+    apply rev_of_In in Ht. destruct Ht as [it [Hin Hsucc]].
+    assert (Hedge : edge g [] t nt) by (exists it; split; [apply In_find; assumption | exact Hsucc]).
+    set (depth := if hid || negb (same_target g nt t) then (nd + 1)%Z else nd).
+    assert (Hpath : rpath g hid s t depth).
+    { pose proof (rp_snoc g hid s nt t nd Hp Hedge) as H. unfold rcost in H. unfold depth.
+      destruct (hid || negb (same_target g nt t)); [exact H | rewrite Z.add_0_r in H; exact H]. }
+    assert (Hle : maxd = (-1)%Z \/ (depth <= maxd)%Z).
+    { apply orb_true_iff in Elim. destruct Elim as [El|El]; [right | left; apply Z.eqb_eq; exact El].
+      apply Z.ltb_lt in El. unfold depth. destruct (hid || negb (same_target g nt t)); lia. }
+    apply push_inv; [exists s; split; assumption|].
+    destruct Hinv as [Hi1 Hi2]. split; cbn [r_q r_ret]; [exact Hi1|].
+    destruct (Z.ltb 0 depth) eqn:Epos; [|exact Hi2]. apply Z.ltb_lt in Epos.
+    assert (Hrep : forall x, report g hid t x -> rwithin g hid roots maxd x).
+    { intros x Hx. exists s, t, depth. repeat split; try assumption; lia. }
+    destruct (hid || negb (is_hidden g t)) eqn:Evis.
+    - intros x Hx. apply In_add in Hx. destruct Hx as [Hx|Hx]; [|apply Hi2; exact Hx].
+      subst x. apply Hrep. unfold report. rewrite Evis. reflexivity.
+    - destruct (parent_target g t) as [p|] eqn:Epar; [|exact Hi2].
+      intros x Hx. apply In_add in Hx. destruct Hx as [Hx|Hx]; [|apply Hi2; exact Hx].
+      subst x. apply Hrep. unfold report. rewrite Evis. exact Epar.
+  Qed.
+
+  Lemma rev_fold_inv : forall nt nd ts st, q_ok nt nd -> incl ts (rev_of g nt) -> rinv st ->
+    rinv (fold_left (rev_step g hid maxd nt nd) ts st).
+  Proof.
+    intros nt nd. induction ts as [|t ts IH]; intros st Hq Hsub Hinv; cbn [fold_left]; [exact Hinv|].
+    apply IH; [exact Hq | intros z Hz; apply Hsub; right; exact Hz|].
+    apply rev_step_inv; [exact Hq | apply Hsub; left; reflexivity | exact Hinv].
+  Qed.
+
+  Lemma rev_loop_sound : forall fuel st out, rinv st -> rev_loop fuel g hid maxd st = Some out ->
+    forall x, In x out -> rwithin g hid roots maxd x.
+  Proof.
+    induction fuel as [|f IH]; intros st out Hinv H; cbn [rev_loop] in H; [discriminate|].
+    destruct (r_q st) as [|[nt nd] q'] eqn:Eq.
+    - injection H as <-. apply Hinv.
+    - eapply IH; [|exact H]. destruct Hinv as [Hi1 Hi2].
+      apply rev_fold_inv; [apply Hi1; rewrite Eq; left; reflexivity | apply incl_refl|].
+      split; cbn [r_q r_ret]; [|exact Hi2]. intros t d Hin. apply Hi1. rewrite Eq. right. exact Hin.
+  Qed.
+
+  (* ---- fuel: queue length + unseen targets decreases with every pop ---- *)
+  Definition rmeasure (st : rstate) : nat := (length (r_q st) + unseen g (r_done st))%nat.
+
+  Lemma push_measure : forall t d st, find g t <> None -> (rmeasure (push (t, d) st) <= rmeasure st)%nat.
+  Proof.
+    intros t d st Hf. unfold push, rmeasure. cbn [fst]. destruct (mem t (r_done st)) eqn:Em; [lia|].
+    cbn [r_q r_done]. rewrite app_length. cbn [length].
+    destruct (find g t) as [i|] eqn:E; [|congruence].
+    apply mem_false_In in Em. pose proof (unseen_add g (r_done st) t i E Em). lia.
+  Qed.
+
+  Lemma rev_step_measure : forall nt nd st t, In t (rev_of g nt) ->
+    (rmeasure (rev_step g hid maxd nt nd st t) <= rmeasure st)%nat.
+  Proof.
+    intros nt nd st t Ht. unfold rev_step. destruct (Z.ltb nd maxd || Z.eqb maxd (-1)); [|lia].
+    apply rev_of_In in Ht. destruct Ht as [it [Hin _]].
+    match goal with |- (rmeasure (push ?n ?s) <= _)%nat => pose proof (push_measure (fst n) (snd n) s (In_find_some _ _ _ Hin)) as H end.
+    cbn [fst snd] in H. exact H.
+  Qed.
+
+  Lemma rev_fold_measure : forall nt nd ts st, incl ts (rev_of g nt) ->
+    (rmeasure (fold_left (rev_step g hid maxd nt nd) ts st) <= rmeasure st)%nat.
+  Proof.
+    intros nt nd. induction ts as [|t ts IH]; intros st Hsub; cbn [fold_left]; [lia|].
+    etransitivity; [apply IH; intros z Hz; apply Hsub; right; exact Hz|].
+    apply rev_step_measure. apply Hsub. left. reflexivity.
+  Qed.
+
+  Lemma rev_loop_total : forall fuel st, (rmeasure st < fuel)%nat -> rev_loop fuel g hid maxd st <> None.
+  Proof.
+    induction fuel as [|f IH]; intros st Hm; [lia|]. cbn [rev_loop].
+    destruct (r_q st) as [|[nt nd] q'] eqn:Eq; [discriminate|]. apply IH.
+    pose proof (rev_fold_measure nt nd (rev_of g nt) (mkR q' (r_done st) (r_ret st)) (incl_refl _)) as H.
+    unfold rmeasure in *. cbn [r_q r_done] in *. rewrite Eq in Hm. cbn [length] in Hm. lia.
+  Qed.
+
+  (* ---- the initial pushes ---- *)
+  Lemma children_In : forall r c, In c (children g r) -> parent_target g c = Some r.
+  Proof.
+    intros r c H. unfold children in H. apply in_flat_map in H. destruct H as [[k v] [_ Hin]]. cbn [fst] in Hin.
+    destruct (parent_target g k) as [p|] eqn:E; [|destruct Hin].
+    destruct (N.eqb p r) eqn:Ep; [|destruct Hin]. destruct Hin as [Hin|[]]. subst c.
+    apply N.eqb_eq in Ep. subst p. exact E.
+  Qed.
+
+  Lemma parent_target_in : forall c r, parent_target g c = Some r -> find g c <> None.
+  Proof. intros c r H. unfold parent_target in H. destruct (find g c); [discriminate|discriminate]. Qed.
+
+  Lemma rev_init_ok :
+    forall rs chs st, incl rs roots -> Forall (in_graph g) rs -> Forall2 (fun r ch => Permutation ch (children g r)) rs chs ->
+      rinv st -> (rmeasure st <= length g)%nat ->
+      rinv (rev_init g hid rs chs st) /\ (rmeasure (rev_init g hid rs chs st) <= length g)%nat.
+  Proof.
+    intros rs chs st Hsub Hin HF. revert st Hsub Hin.
+    induction HF as [|r ch rs chs Hperm HF IH]; intros st Hsub Hin Hinv Hm; cbn [rev_init]; [split; assumption|].
+    inversion Hin as [|? ? Hr Hin']; subst.
+    assert (Hroot : In r roots) by (apply Hsub; left; reflexivity).
+    cbn [hd tl].
+    set (st1 := push (r, 0%Z) st).
+    assert (H1 : rinv st1 /\ (rmeasure st1 <= length g)%nat).
+    { split.
+      - apply push_inv; [|exact Hinv]. exists r. split; [exists r; auto | apply rp_nil].
+      - pose proof (push_measure r 0%Z st Hr). unfold st1. lia. }
+    assert (H2 : forall cs s, incl cs (children g r) -> negb hid && negb (is_hidden g r) = true ->
+                  rinv s /\ (rmeasure s <= length g)%nat ->
+                  rinv (fold_left (fun s c => push (c, 0%Z) s) cs s) /\
+                  (rmeasure (fold_left (fun s c => push (c, 0%Z) s) cs s) <= length g)%nat).
+    { induction cs as [|c cs IHc]; intros s Hcs Hcond [Hs1 Hs2]; cbn [fold_left]; [split; assumption|].
+      apply IHc; [intros z Hz; apply Hcs; right; exact Hz | exact Hcond|].
+      assert (Hc : In c (children g r)) by (apply Hcs; left; reflexivity).
+      apply andb_true_iff in Hcond. destruct Hcond as [Ch Cr]. apply negb_true_iff in Ch, Cr.
+      split.
+      - apply push_inv; [|exact Hs1]. exists c. split; [|apply rp_nil]. exists r. split; [exact Hroot|]. right. auto.
+      - pose proof (push_measure c 0%Z s (parent_target_in c r (children_In r c Hc))). lia. }
+    apply IH; [intros z Hz; apply Hsub; right; exact Hz | exact Hin' | |].
+    - destruct (negb hid && negb (is_hidden g r)) eqn:Ec; [|apply H1].
+      apply H2; [intros z Hz; eapply Permutation_in; eauto | reflexivity | exact H1].
+    - destruct (negb hid && negb (is_hidden g r)) eqn:Ec; [|apply H1].
+      apply H2; [intros z Hz; eapply Permutation_in; eauto | reflexivity | exact H1].
+  Qed.
+End Revdeps.
+
+(* revdeps: never out of fuel; everything reported is within the limit, in whatever order Go enumerates
+   the children of the roots *)
+Theorem revdeps_sound_proof :
+  forall g roots chs hid lim, NoDup (map fst g) -> Forall (in_graph g) roots ->
+    Forall2 (fun r ch => Permutation ch (children g r)) roots chs ->
+    exists out, revdeps_with g roots chs hid lim = Some out /\ forall x, In x out -> rwithin g hid roots lim x.
+Proof.
+  intros g roots chs hid lim Hnd Hin HF. unfold revdeps_with.
+  assert (H0 : rinv g hid lim roots (mkR [] [] []) /\ (rmeasure g (mkR [] [] []) <= length g)%nat).
+  { split; [split; cbn [r_q r_ret]; [intros t d []|intros x []]|].
+    unfold rmeasure. cbn [r_q r_done length]. pose proof (unseen_le_length g []). lia. }
+  destruct H0 as [Hi Hm].
+  destruct (rev_init_ok g hid lim roots roots chs _ (incl_refl _) Hin HF Hi Hm) as [Hi' Hm'].
+  destruct (rev_loop (S (length g + length roots)) g hid lim (rev_init g hid roots chs (mkR [] [] []))) as [out|] eqn:E.
+  - exists out. split; [reflexivity|]. eapply rev_loop_sound; eauto.
+  - exfalso. eapply rev_loop_total; [|exact E]. lia.
+Qed.
+
+(* ------------------------------------------------------------------------------------------- *)
+(* the exact statements, and the witnesses against two of them *)
+
+Definition somepath_exact : Prop :=
+  forall g ex froms tos, Forall (in_graph g) froms -> Forall (in_graph g) tos ->
+    exists p, some_path_raw g ex froms tos = Some p /\
+      (p <> [] <-> some_connected g ex froms tos) /\
+      (p <> [] -> exists a b, In a froms /\ In b tos /\ (joins g ex a b p \/ joins g ex b a p)) /\
+      chain (redge g ex) (show g false p).
+
+Definition deps_exact : Prop :=
+  forall g roots hid lim, (-1 <= lim)%Z ->
+    exists out, deps_query g roots hid lim = Some out /\
+      forall t, In t (map snd out) <-> dwithin g hid roots lim t.
+
+Definition revdeps_exact : Prop :=
+  forall g roots chs hid lim, NoDup (map fst g) -> Forall (in_graph g) roots -> (-1 <= lim)%Z ->
+    Forall2 (fun r ch => Permutation ch (children g r)) roots chs ->
+    exists out, revdeps_with g roots chs hid lim = Some out /\
+      forall x, In x out <-> rwithin g hid roots lim x.
+
+Theorem somepath_exact_holds : somepath_exact.
+Proof.
+  intros g ex froms tos Hf Ht. destruct (somepath_exact_proof g ex froms tos Hf Ht) as [p [Hp [Hiff Hj]]].
+  exists p. split; [exact Hp|]. split; [exact Hiff|]. split; [exact Hj|].
+  unfold show. destruct p as [|x p]; [exact I|]. apply shown_chain.
+  destruct Hj as [a [b [_ [_ [[x' [r [_ [_ [Hc _]]]]]|[x' [r [_ [_ [Hc _]]]]]]]]]]; [discriminate| |]; exact Hc.
+Qed.
+
+(* DESIGN.md witness: a=0 b=1 m=2 root=3 x=4 y=5;  root->{a,b}, a->m->x, b->x, x->y *)
+Definition w_deps : graph :=
+  [(0, mkT [2] 0 false [] []); (1, mkT [4] 1 false [] []); (2, mkT [4] 2 false [] []);
+   (3, mkT [0; 1] 3 false [] []); (4, mkT [5] 4 false [] []); (5, mkT [] 5 false [] [])]%N.
+
+Ltac edge_tac := eexists; split; [vm_compute; reflexivity | vm_compute; tauto].
+
+Lemma w_deps_within : dwithin w_deps false [3%N] 3 5%N.
+Proof.
+  split.
+  - eexists. split; [vm_compute; reflexivity|]. right. reflexivity.
+  - exists 3%N. eexists. split; [left; reflexivity|]. split.
+    + apply (wp_cons w_deps false 3%N 1%N 5%N); [edge_tac|].
+      apply (wp_cons w_deps false 1%N 4%N 5%N); [edge_tac|].
+      apply (wp_one w_deps false 4%N 5%N). edge_tac.
+    + right. vm_compute. discriminate.
+Qed.
+
+Theorem deps_refuted : ~ deps_exact.
+Proof.
+  intros H. destruct (H w_deps [3%N] false 3%Z ltac:(lia)) as [out [Hq Hiff]].
+  vm_compute in Hq. injection Hq as <-.
+  pose proof (proj2 (Hiff 5%N) w_deps_within) as Hin. vm_compute in Hin.
+  repeat (destruct Hin as [Hin|Hin]; [discriminate|]). exact Hin.
+Qed.
+
+(* revdeps witness: _r#t=0 a=1 d=2 e=3 r=4 y=5;  e->d, d->{a,r}, a->_r#t, r->_r#t, _r#t->y *)
+Definition w_rev : graph :=
+  [(0, mkT [5] 4 true [] []); (1, mkT [0] 1 false [] []); (2, mkT [1; 4] 2 false [] []);
+   (3, mkT [2] 3 false [] []); (4, mkT [0] 4 false [] []); (5, mkT [] 5 false [] [])]%N.
+
+Lemma w_rev_within : rwithin w_rev false [5%N] 3 3%N.
+Proof.
+  exists 5%N, 3%N. eexists. split; [exists 5%N; split; [left; reflexivity | left; reflexivity]|]. split.
+  - apply (rp_snoc w_rev false 5%N 2%N 3%N); [|edge_tac].
+    apply (rp_snoc w_rev false 5%N 4%N 2%N); [|edge_tac].
+    apply (rp_snoc w_rev false 5%N 0%N 4%N); [|edge_tac].
+    apply (rp_snoc w_rev false 5%N 5%N 0%N); [|edge_tac].
+    apply rp_nil.
+  - split; [vm_compute; discriminate|]. split; [right; vm_compute; discriminate|]. vm_compute. reflexivity.
+Qed.
+
+Theorem revdeps_refuted : ~ revdeps_exact.
+Proof.
+  intros H.
+  assert (Hnd : NoDup (map fst w_rev)).
+  { cbn [map fst w_rev]. repeat (constructor; [cbn [In]; intros Hx; repeat (destruct Hx as [Hx|Hx]; [discriminate|]); exact Hx|]). constructor. }
+  assert (Hin : Forall (in_graph w_rev) [5%N]) by (constructor; [vm_compute; discriminate | constructor]).
+  assert (Hch : Forall2 (fun r ch => Permutation ch (children w_rev r)) [5%N] [[]]).
+  { constructor; [vm_compute; constructor | constructor]. }
+  destruct (H w_rev [5%N] [[]] false 3%Z Hnd Hin ltac:(lia) Hch) as [out [Hq Hiff]].
+  vm_compute in Hq. injection Hq as <-.
+  pose proof (proj2 (Hiff 3%N) w_rev_within) as Hx. vm_compute in Hx.
+  repeat (destruct Hx as [Hx|Hx]; [discriminate|]). exact Hx.
+Qed.
